@@ -18,6 +18,7 @@ package gen
 //@   ensures metaOK(meta) && meta.rowGroups == old(meta.rowGroups)
 //@   ensures[C09] err == nil ==> (wfault ==> old(wfault))
 //@   ensures[C06] #meta.rowGroups >= 1 && err == nil ==> pageWritten(meta)
+//@   ensures[C02] snkPos >= old(snkPos) && snkKept(old(snkPos))
 
 //@ iface Field.Schema
 //@   modifies nothing
@@ -62,6 +63,7 @@ package gen
 //@   ensures[C06] fnid(self) != fnidOf("GEN.MaxPageSize$1") ==> arg0.max == old(arg0.max)
 //@   ensures[C06] arg0.len == old(arg0.len) && arg0.child == old(arg0.child)
 //@   ensures[C06] fnid(self) != fnidOf("GEN.begin") ==> snkPos == old(snkPos) && snkB == old(snkB)
+//@   ensures[C02] fnid(self) == fnidOf("GEN.begin") && res == nil ==> snkPos == old(snkPos) + 4 && snkMagic(old(snkPos)) && snkKept(old(snkPos))
 
 // C06. The open row group is the last one; it has NumRows 0 until its first
 // page is written. rootOK is the invariant of the writer the user holds.
@@ -79,14 +81,17 @@ package gen
 //@   ensures[C06] old(rootOK(p)) && old(p.meta.rowGroupDocs) == 0 ==> err == nil && snkPos == old(snkPos) && groupsSame(p.meta) && p.meta.rowGroupDocs == 0 && p.meta.docs == old(p.meta.docs) && sameheap("sch.ColumnMetaData") && sameheap("map[string]sch.ColumnChunk") && sameheap("[]parquet.RowGroup") && rootOK(p)
 //@   ensures[C06] old(rootOK(p)) && old(p.meta.rowGroupDocs) != 0 && err == nil ==> #p.meta.rowGroups == old(#p.meta.rowGroups) + 1 && p.meta.rowGroups[#p.meta.rowGroups - 2].rowGroup.NumRows == old(p.meta.rowGroupDocs) && (forall k in 0..old(#p.meta.rowGroups) - 1: p.meta.rowGroups[k].rowGroup.NumRows == old(p.meta.rowGroups[k].rowGroup.NumRows)) && p.meta.docs == old(p.meta.docs) && rootOK(p)
 //@   ensures[C06] p.max == old(p.max) && p.meta == old(p.meta) && p.w == old(p.w)
+//@   ensures[C02] snkPos >= old(snkPos) && snkKept(old(snkPos))
 //@   ensures[C06] old(chainInv(allocbound())) ==> chainInv(allocbound())
 //@ loop (*ParquetWriter).Write#1
 //@   modifies p.meta, HA(p.meta.rowGroups), heap("sch.ColumnMetaData"), heap("map[string]sch.ColumnChunk"), wfault, snk, ser, relArr
 //@   invariant metaOK(p.meta) && (wfault ==> old(wfault)) && p.meta.rowGroups == old(p.meta.rowGroups) && 0 <= rangeindex + 1
+//@   invariant[C02] snkPos >= old(snkPos) && snkKept(old(snkPos))
 //@   invariant[C06] old(#p.meta.rowGroups) >= 1 ==> p.meta.rowGroupDocs == old(p.meta.rowGroupDocs) && p.meta.docs == old(p.meta.docs) && closedSame(p.meta) && (rangeindex + 1 >= 1 ==> lastRows(p.meta) == p.meta.rowGroupDocs)
 //@ loop (*ParquetWriter).Write#2
 //@   modifies p.meta, HA(p.meta.rowGroups), heap("sch.ColumnMetaData"), heap("map[string]sch.ColumnChunk"), wfault, snk, ser, relArr
 //@   invariant metaOK(p.meta) && (wfault ==> old(wfault)) && p.meta.rowGroups == old(p.meta.rowGroups) && 0 <= rangeindex$1 + 1
+//@   invariant[C02] snkPos >= old(snkPos) && snkKept(old(snkPos))
 //@   invariant[C06] old(#p.meta.rowGroups) >= 1 ==> p.meta.rowGroupDocs == old(p.meta.rowGroupDocs) && p.meta.docs == old(p.meta.docs)
 //@   invariant[C06] old(#p.meta.rowGroups) >= 1 ==> closedSame(p.meta)
 //@   invariant[C06] old(#p.meta.rowGroups) >= 1 ==> lastRows(p.meta) == p.meta.rowGroupDocs
@@ -103,12 +108,18 @@ package gen
 //@   free-requires live(par1)
 //@   modifies heap("sch.ColumnMetaData"), heap("sch.SchemaElement"), wfault, snk, ser
 //@   ensures[C09] err == nil ==> (wfault ==> old(wfault))
+// the file ends <footer><its length, little endian><PAR1>
+//@   free-requires isPAR1(par1)
+//@   ensures[C02] err == nil && dyn(p.w) != typeid("*bytes.Buffer") ==> snkPos == old(snkPos) + footLen + 8 && snkKept(old(snkPos)) && snkMagic(snkPos - 4) && (0 <= footLen && footLen <= 4294967295 ==> snkLE32(old(snkPos) + footLen) == footLen)
 //@   ensures[C06] err == nil ==> footRows == rowsSum(HA(p.meta.rowGroups), off(p.meta.rowGroups), #p.meta.rowGroups) && footGroups == groupsKept(HA(p.meta.rowGroups), off(p.meta.rowGroups), #p.meta.rowGroups)
 
+//@ pred isPAR1(b) := #b == 4 && b[0] == 80 && b[1] == 65 && b[2] == 82 && b[3] == 49
 //@ func begin
 //@   requires p != nil && external(p.w)
 //@   free-requires live(par1)
+//@   free-requires isPAR1(par1)
 //@   modifies wfault, snk
+//@   ensures[C02] err == nil ==> snkPos == old(snkPos) + 4 && snkMagic(old(snkPos)) && snkKept(old(snkPos))
 //@   ensures[C09] err == nil ==> (wfault ==> old(wfault))
 
 //@ func Fields
@@ -159,6 +170,7 @@ package gen
 //@   modifies HA(opts), wfault, snk
 //@   ensures err == nil ==> writerOK(res0)
 //@   ensures[C09] err == nil ==> (wfault ==> old(wfault))
+//@   ensures[C02] err == nil && (forall k in 0..#opts: fnid(opts[k]) != fnidOf("GEN.begin")) ==> snkPos == old(snkPos) + 4 && snkMagic(old(snkPos)) && snkKept(old(snkPos))
 //@   ensures[C06] err == nil && res0.max >= 1 ==> rootOK(res0) && #res0.meta.rowGroups == 1 && res0.meta.docs == 0
 //@   ensures[C06] err == nil ==> res0.child == nil && (old(chainInv(allocbound())) ==> chainInv(allocbound()))
 
@@ -193,12 +205,15 @@ package gen
 //@   ensures (forall k in 0..#opts: fnid(opts[k]) != fnidOf("GEN.begin")) ==> wfault == old(wfault)
 //@   ensures (forall k in 0..#opts: pageOpt(opts[k])) ==> err == nil
 //@   ensures[C09] err == nil ==> (wfault ==> old(wfault))
+// the user-facing constructor appends "begin" to the options: exactly the magic bytes are written
+//@   ensures[C02] err == nil && #opts >= 1 && (forall k in 0..#opts - 1: fnid(opts[k]) != fnidOf("GEN.begin")) && fnid(opts[#opts - 1]) == fnidOf("GEN.begin") ==> snkPos == old(snkPos) + 4 && snkMagic(old(snkPos)) && snkKept(old(snkPos))
 //@ loop newParquetWriter#1
 //@   modifies p, wfault, snk
 //@   invariant p.w == w && (wfault ==> old(wfault)) && 0 <= rangeindex + 1 && rangeindex + 1 <= #opts
 //@   invariant (forall k in 0..rangeindex+1: fnid(opts[k]) != fnidOf("GEN.withMeta$1")) ==> p.meta == nil
 //@   invariant (forall k in 0..rangeindex+1: fnid(opts[k]) != fnidOf("GEN.begin")) ==> wfault == old(wfault)
 //@   invariant[C06] (forall k in 0..rangeindex+1: fnid(opts[k]) != fnidOf("GEN.begin")) ==> snkPos == old(snkPos) && snkB == old(snkB)
+//@   invariant[C02] rangeindex + 1 >= 1 && (forall k in 0..rangeindex: fnid(opts[k]) != fnidOf("GEN.begin")) && fnid(opts[rangeindex]) == fnidOf("GEN.begin") ==> snkPos == old(snkPos) + 4 && snkMagic(old(snkPos)) && snkKept(old(snkPos))
 //@   invariant[C06] p.len == 0 && p.child == nil && freshsince(p) && onlyNew(p)
 //@   invariant[C06] optMeta(opts, rangeindex + 1) >= 0 ==> p.meta == cloArg(opts[optMeta(opts, rangeindex + 1)])
 //@   invariant[C06] optMeta(opts, rangeindex + 1) < 0 ==> p.meta == nil
